@@ -55,9 +55,9 @@ def sub_data(spec, sub, lv, bid, glo, ghi, k):
             return (raw(k) / tot * drift).reshape(shape, order="F")
         if spec.get("undershoot") and k == 4 + spec["nspec"] - 1:
             # the last species undershoots in some cells (small negative mass fractions, as an advection scheme leaves them):
-            # they are rescaled like every other value (the sum over the species stays positive)
+            # they are rescaled like every other value (small enough for the sum over the species to stay positive)
             v = raw(k)
-            v[::3] = -v[::3] / 16.0
+            v[::3] = -v[::3] / 1024.0
             return v.reshape(shape, order="F")
         # positive mass fractions, deliberately not normalised
         return raw(k).reshape(shape, order="F")
